@@ -155,7 +155,10 @@ class G:
               {"type": "string", "format": "uuid"}, {"type": "integer", "format": "uint8"},
               {"type": "string", "format": "date-time"}, {"type": "string", "format": "ipv6"},
               {"type": "integer", "format": "int32", "minimum": 0}, {}, {"type": "null"},
-              {"type": "number", "format": "float"}]
+              {"type": "number", "format": "float"},
+              # unrecognised formats with string constraints: a plain String on the unchanged tree
+              {"type": "string", "format": "hostname", "pattern": "^h[a-z]*$"},
+              {"type": "string", "format": "email", "maxLength": 40}]
 
     def __init__(self, rnd):
         self.rnd = rnd
@@ -263,6 +266,114 @@ class G:
         return {"definitions": defs}
 
 
+# --------------------------------------------------------------------------
+# single-source spaces: ONE construct per space that can pull in an external
+# crate, so that the (sticky) uses_* flag cannot have been set by anything else
+# --------------------------------------------------------------------------
+PAT = "^a[a-z0-9]*$"
+UNRECOGNISED_FORMATS = ["hostname", "uri", "email", "bogus"]
+RECOGNISED_STRING_FORMATS = ["uuid", "date", "date-time", "ip", "ipv4", "ipv6"]
+
+
+def crate_leaves():
+    """(tag, crate the construct is about, schema)"""
+    out = []
+    S = lambda **kw: dict({"type": "string"}, **kw)
+    # regress
+    out.append(("pattern", "regress", S(pattern=PAT)))
+    out.append(("pattern+len", "regress", S(pattern=PAT, minLength=1, maxLength=9)))
+    for f in UNRECOGNISED_FORMATS:
+        out.append(("pattern+format:" + f, "regress", S(format=f, pattern=PAT)))
+        out.append(("len+format:" + f, "regress", S(format=f, minLength=1, maxLength=9)))
+    for f in RECOGNISED_STRING_FORMATS:
+        out.append(("pattern+format:" + f, "regress", S(format=f, pattern=PAT)))
+    out.append(("propertyNames-pattern", "regress",
+                {"type": "object", "propertyNames": {"pattern": PAT}, "additionalProperties": {"type": "integer"}}))
+    out.append(("propertyNames-typed-pattern", "regress",
+                {"type": "object", "propertyNames": {"type": "string", "pattern": PAT}, "additionalProperties": {"type": "boolean"}}))
+    for f in ("hostname", "email", "uuid"):
+        out.append(("propertyNames-pattern+format:" + f, "regress",
+                    {"type": "object", "propertyNames": {"type": "string", "format": f, "pattern": PAT},
+                     "additionalProperties": {"type": "integer"}}))
+    out.append(("propertyNames-len", "regress",
+                {"type": "object", "propertyNames": {"type": "string", "maxLength": 8}, "additionalProperties": {"type": "integer"}}))
+    out.append(("patternProperties", "regress", {"type": "object", "patternProperties": {PAT: {"type": "integer"}}}))
+    out.append(("patternProperties-closed", "regress",
+                {"type": "object", "patternProperties": {PAT: {"type": "boolean"}}, "additionalProperties": False}))
+    out.append(("pattern-enum", "regress", S(pattern=PAT, enum=["ab", "ac", "zz"])))
+    # uuid / chrono
+    out.append(("format:uuid", "uuid", S(format="uuid")))
+    out.append(("propertyNames-format:uuid", "uuid",
+                {"type": "object", "propertyNames": {"type": "string", "format": "uuid"}, "additionalProperties": {"type": "integer"}}))
+    out.append(("format:date", "chrono", S(format="date")))
+    out.append(("format:date-time", "chrono", S(format="date-time")))
+    out.append(("propertyNames-format:date", "chrono",
+                {"type": "object", "propertyNames": {"type": "string", "format": "date"}, "additionalProperties": {"type": "integer"}}))
+    # serde_json
+    out.append(("any:{}", "serde_json", {}))
+    out.append(("any:true", "serde_json", True))
+    out.append(("array-of-any", "serde_json", {"type": "array"}))
+    out.append(("set-of-any", "serde_json", {"type": "array", "uniqueItems": True}))
+    out.append(("object-of-any", "serde_json", {"type": "object"}))
+    out.append(("map-of-any", "serde_json", {"type": "object", "additionalProperties": True}))
+    out.append(("map-of-{}", "serde_json", {"type": "object", "additionalProperties": {}}))
+    out.append(("struct+extra-any", "serde_json",
+                {"type": "object", "properties": {"k": {"type": "integer"}}, "additionalProperties": True}))
+    out.append(("any-with-default", "serde_json", {"default": {"a": [1, None]}}))
+    out.append(("array-of-any-with-default", "serde_json", {"type": "array", "default": [1, "x"]}))
+    out.append(("items-true", "serde_json", {"type": "array", "items": True}))
+    out.append(("tuple-with-any", "serde_json", {"type": "array", "items": [{"type": "integer"}, {}], "minItems": 2, "maxItems": 2}))
+    out.append(("not-typed-description-only", "serde_json", {"description": "anything goes"}))
+    return out
+
+
+def leaf_positions(leaf):
+    """(position tag, document) — the leaf used in exactly one place"""
+    I = {"type": "integer"}
+    D = {"$ref": "#/definitions/X"}
+    yield "definition", {"definitions": {"X": leaf}}
+    yield "prop-required", {"definitions": {"H": {"type": "object", "required": ["p"], "properties": {"p": leaf}}}}
+    yield "map-value", {"definitions": {"H": {"type": "object", "additionalProperties": leaf}}}
+    yield "untagged-variant", {"definitions": {"H": {"anyOf": [leaf, I]}}}
+    yield "prop-optional", {"definitions": {"H": {"type": "object", "properties": {"p": leaf, "q": I}}}}
+    yield "items", {"definitions": {"H": {"type": "array", "items": leaf}}}
+    yield "set-items", {"definitions": {"H": {"type": "array", "items": leaf, "uniqueItems": True}}}
+    yield "tuple-item", {"definitions": {"H": {"type": "array", "items": [I, leaf], "minItems": 2, "maxItems": 2}}}
+    yield "struct-extra", {"definitions": {"H": {"type": "object", "properties": {"k": I}, "additionalProperties": leaf}}}
+    yield "external-variant", {"definitions": {"H": {"oneOf": [
+        {"type": "object", "properties": {"a": leaf}, "required": ["a"], "additionalProperties": False},
+        {"type": "object", "properties": {"b": I}, "required": ["b"], "additionalProperties": False}]}}}
+    yield "struct-variant-field", {"definitions": {"H": {"oneOf": [
+        {"type": "object", "properties": {"kind": {"type": "string", "enum": ["x"]}, "v": leaf}, "required": ["kind", "v"]},
+        {"type": "object", "properties": {"kind": {"type": "string", "enum": ["y"]}}, "required": ["kind"]}]}}}
+    yield "nullable-prop", {"definitions": {"H": {"type": "object", "properties": {"p": {"oneOf": [leaf, {"type": "null"}]}}}}}
+    yield "alias", {"definitions": {"X": leaf, "Y": D}}
+    yield "ref-prop", {"definitions": {"X": leaf, "H": {"type": "object", "required": ["p"], "properties": {"p": D}}}}
+    yield "allOf-one", {"definitions": {"H": {"allOf": [leaf]}}}
+    yield "fixed-array", {"definitions": {"H": {"type": "array", "items": leaf, "minItems": 2, "maxItems": 2}}}
+    if isinstance(leaf, dict):
+        yield "titled-root", dict(leaf, title="RootThing")
+
+
+QUICK_POSITIONS = ("definition", "prop-required", "map-value", "untagged-variant")
+# leaves that are put into EVERY position also in the quick tier
+QUICK_FULL = ("pattern", "pattern+format:hostname", "propertyNames-pattern", "format:uuid", "format:date-time", "any:{}")
+
+
+def single_source_cases(ctx):
+    out = []
+    k = 0
+    for tag, crate, leaf in crate_leaves():
+        for pos, doc in leaf_positions(leaf):
+            if ctx.tier != "thorough" and pos not in QUICK_POSITIONS and tag not in QUICK_FULL:
+                continue
+            out.append({"name": "single:%s:%s@%s" % (crate, tag, pos), "origin": "single-source",
+                        "settings": SETTINGS[k % len(SETTINGS)], "steps": [{"op": "root", "doc": doc}],
+                        "single": {"crate": crate, "construct": tag, "position": pos}})
+            k += 1
+    return out
+
+
 def load_corpus():
     out = []
     for p in sorted(glob.glob(os.path.join(CORPUS, "*.json"))):
@@ -300,6 +411,7 @@ def gen_cases(ctx):
                       "steps": [{"op": "root", "doc": REPLACE_CASE["doc"]}]})
     cases.append({"name": "maptype", "origin": "kinds", "settings": {"map_type": "::std::collections::BTreeMap"},
                   "steps": [{"op": "root", "doc": KINDS_DOC}]})
+    cases += single_source_cases(ctx)
     rnd = random.Random(ctx.seed * 1000003 + 17)
     g = G(rnd)
     nrand = 40 if ctx.tier == "quick" else 320
@@ -662,6 +774,8 @@ def run(ctx):
         ctx.oblige("model HasImpl.v evaluates on the real dumps", False, str(e)[-3000:])
 
     k1_mis, k4_mis, k6_mis, kcls_mis, b_mis, n_mis, u_mis = [], [], [], [], [], [], []
+    single_stats = {}
+    n_token_checks = 0
     n_pairs = n_true = n_bound_ok = n_incomplete = 0
     n_types = 0
     facts_checked = 0
@@ -685,6 +799,17 @@ def run(ctx):
                 report(v)
         # (d) uses flags vs tokens
         seen_c = crates_in_tokens(g["render"].get("tokens", ""))
+        n_token_checks += 1
+        if c.get("single"):
+            sg = c["single"]
+            rec = single_stats.setdefault(sg["crate"], {"spaces": 0, "tokens_mention_crate": 0, "flag_true": 0, "constructs": {}})
+            rec["spaces"] += 1
+            rec["tokens_mention_crate"] += int(seen_c[sg["crate"]])
+            rec["flag_true"] += int(bool(g["uses"][sg["crate"]]))
+            cr = rec["constructs"].setdefault(sg["construct"], [0, 0, 0])
+            cr[0] += 1
+            cr[1] += int(seen_c[sg["crate"]])
+            cr[2] += int(bool(g["uses"][sg["crate"]]))
         for cr, present in seen_c.items():
             if present and not g["uses"][cr]:
                 toks = strip_docs(g["render"]["tokens"])
@@ -793,6 +918,15 @@ def run(ctx):
     n_unobs_fix = len([u for u in unobservable if not u["case"].startswith("random")])
     ctx.oblige("fixture / kinds / replace modules are observable (compile)", n_unobs_fix == 0,
                json.dumps(unobservable[:4]))
+    ctx.coverage["token_level_uses_checks (spaces)"] = n_token_checks
+    ctx.coverage["single_source_spaces (per crate: spaces / tokens mention the crate / flag true; per construct [n, tokens, flag])"] = single_stats
+    n_single = len([c for c in cases if c.get("single")])
+    n_single_gen = sum(v["spaces"] for v in single_stats.values())
+    ctx.oblige("single-source spaces: token-level uses_* check ran on >= 90%% of %d one-construct spaces, and each of "
+               "regress/uuid/chrono/serde_json is the ONLY external crate source in >= 5 spaces whose tokens mention it" % n_single,
+               n_single_gen * 10 >= n_single * 9 and all(
+                   single_stats.get(cr, {}).get("tokens_mention_crate", 0) >= 5 for cr in ("regress", "uuid", "chrono", "serde_json")),
+               json.dumps({k: {x: v[x] for x in ("spaces", "tokens_mention_crate", "flag_true")} for k, v in single_stats.items()}))
     ctx.oblige("world is not degenerate (>= 60%% of the cases generate)", n_gen * 10 >= len(cases) * 6,
                "%d of %d" % (n_gen, len(cases)))
 
@@ -806,7 +940,12 @@ def run(ctx):
         ctx.known_finding(fid, text)
     ctx.oblige("direct property evaluation: no unlisted violation", not viol, json.dumps(viol[:3]))
     if viol:
-        viol.sort(key=lambda v: len(json.dumps(v)))
+        by_name = {c["name"]: c for c in cases}
+
+        def vsize(v):     # smallest failing INPUT first (the one-construct spaces are the minimal witnesses)
+            c = by_name.get(v.get("case"))
+            return (len(json.dumps(c["steps"])) if c else 10 ** 9, len(json.dumps(v)))
+        viol.sort(key=vsize)
         v = dict(viol[0])
         ci = [k for k, c in enumerate(cases) if c["name"] == v.get("case")]
         if ci:
